@@ -342,6 +342,15 @@ pub fn dir_case(rng: &mut Rng, cfg: &str, o: &DirOpts, out: &mut Vec<String>) {
                 out.push(format!("adv.lookup {hu} vfield:{}", nver[i] + 1));
                 out.push(format!("adv.lookup {hu} vfield:{}", nver[i].saturating_sub(1)));
                 out.push(format!("adv.lookup {hu} vfield:{}", epoch + 5));
+                // material of OTHER EPOCHS' trees: the proof served one, two and many epochs ago, whole or in parts
+                for back in [1usize, 2, 5] {
+                    if epoch > back && last_update[i] > 0 {
+                        let e = epoch - back;
+                        for part in ["full", "exist", "marker", "fresh"] {
+                            out.push(format!("adv.lookup {hu} old.{part}:{e}"));
+                        }
+                    }
+                }
                 out.push(format!("adv.lookup {hu} fresh.len:255"));
                 out.push(format!("adv.lookup {hu} fresh.len:257"));
                 out.push(format!("adv.lookup {hu} exist.len:255"));
